@@ -629,19 +629,23 @@ def check_comments(ctx):
         alone = all(l.strip() == '%(comments)s' for l in lines)
         src = canon(v) if v is not None else ''
         from_map = 'self.sourcecode_by_field_name.get(' in src
+        unresolved = False
         if not from_map and v is not None:
-            # resolve locals of the generator through its (single) path
+            # resolve locals of the generator through its paths: every path must fill it from the map
             try:
-                ps = repo.walker().paths(t.func.node, cls=t.func.cls)
+                ps = [p_ for p_ in repo.walker(max_paths=ctx.max_paths).paths(t.func.node, cls=t.func.cls) if not p_.raises()]
                 from ..expr import subst
-                if len(ps) == 1:
-                    res = subst(v, {k: e for k, e in ps[0].env.items() if isinstance(k, str)})
-                    src = canon(res)
-                    from_map = 'self.sourcecode_by_field_name.get(' in src
+                srcs = {canon(subst(v, {k: e for k, e in p_.env.items() if isinstance(k, str)})) for p_ in ps}
+                if srcs:
+                    from_map = all('self.sourcecode_by_field_name.get(' in x for x in srcs)
+                    src = sorted(srcs)[0]
+                    unresolved = not from_map and any(x == canon(v) or '@phi' in x for x in srcs)
             except Undecided:
-                pass
+                unresolved = True
         if alone and from_map:
             ctx.holds(rule, t.func, st, 'stands alone on a line; filled from the source map only', t.lineno, clause='f')
+        elif alone and unresolved:
+            ctx.undecided(rule, t.func, st, 'cannot follow where the text of the annotation hole (%s) comes from' % src[:60], t.lineno, clause='f')
         else:
             ctx.violation(rule, t.func, st, 'the annotation hole is %s' % ('not alone on its line' if not alone else 'filled with something other than the source map (%s)' % src[:80]), t.lineno, clause='f')
     pb = repo.cls('PacketClassBuilder')
